@@ -5,6 +5,7 @@ import (
 	"fmt"
 	"os"
 	"path/filepath"
+	"strings"
 	"time"
 
 	"github.com/kercylan98/vivid/internal/cluster"
@@ -38,6 +39,23 @@ type vvDomain struct {
 
 // vvBuild constructs a real VersionVector with exactly the given entries (explicit zeros and
 // the maximum counter included) by deserialising it with the real reader.
+// vvIDPrefix is the width of the length prefix the real writer puts in front of a node id (learned from the writer, so
+// that a consistent change of the wire format does not stop the check)
+var vvIDPrefix = func() int {
+	v, err := cluster.NewVersionVector().Increment("n1")
+	if err != nil {
+		return 4
+	}
+	w := messages.NewWriter()
+	if err := cluster.WriteVersionVector(w, v); err != nil {
+		return 4
+	}
+	if p := len(w.Bytes()) - 4 - 2 - 8; p == 1 || p == 2 || p == 4 {
+		return p
+	}
+	return 4
+}()
+
 func vvBuild(nodes []string, ranks map[string]int, vals []uint64) (cluster.VersionVector, error) {
 	w := messages.NewWriter()
 	n := 0
@@ -49,7 +67,16 @@ func vvBuild(nodes []string, ranks map[string]int, vals []uint64) (cluster.Versi
 	w.WriteUint32(uint32(n))
 	for _, nd := range nodes { // nodes are sorted by TLC's SetToSeq order; order is irrelevant for the reader
 		if r := ranks[nd]; r >= 0 {
-			w.WriteString(nd)
+			switch vvIDPrefix {
+			case 1:
+				w.Write(uint8(len(nd)))
+				w.WriteBytes([]byte(nd))
+			case 2:
+				w.WriteUint16(uint16(len(nd)))
+				w.WriteBytes([]byte(nd))
+			default:
+				w.WriteString(nd)
+			}
 			w.WriteUint64(vals[r])
 		}
 	}
@@ -208,7 +235,41 @@ func checkC16(c *core.Ctx) {
 			}
 		}
 	}
+	// wireSame: v written and read back compares Equal with v and holds the same counter for every node of the universe
+	wireSame := func(v cluster.VersionVector) bool {
+		w := messages.NewWriter()
+		if err := cluster.WriteVersionVector(w, v); err != nil {
+			return false
+		}
+		rd := messages.NewReader(w.Bytes())
+		back, err := cluster.ReadVersionVector(rd)
+		if err != nil || rd.RemainingSize() != 0 || back.Compare(v) != cluster.VersionEqual || back.Size() != v.Size() {
+			return false
+		}
+		for _, nd := range v.Nodes() {
+			if back.Get(nd) != v.Get(nd) {
+				return false
+			}
+		}
+		return true
+	}
+	// node ids of unusual length, built through the API
+	longIds := 0
+	for _, ln := range []int{1, 17, 255, 256} {
+		id := strings.Repeat("a", ln)
+		if ln >= 6 {
+			id = strings.Repeat("a", ln-5) + ":7000"
+		}
+		v, err := cluster.NewVersionVector().Increment(id)
+		if err != nil {
+			continue // not a legal id for this build: nothing to round-trip
+		}
+		if v, err = v.Increment(id); err != nil || !wireSame(v) {
+			longIds++
+		}
+	}
 	cmp := make([][]string, n)
+	mrgWire := make([][]bool, n)
 	mrg := make([][]int, n)
 	rt := make([]int, n)
 	inc := make([][]map[string]any, n)
@@ -216,13 +277,15 @@ func checkC16(c *core.Ctx) {
 	for i := 0; i < n; i++ {
 		cmp[i] = make([]string, n)
 		mrg[i] = make([]int, n)
+		mrgWire[i] = make([]bool, n)
 		for j := 0; j < n; j++ {
 			cmp[i][j] = ordName(vecs[i].Compare(vecs[j]))
 			chk("Compare", i, j)
 			m := vecs[i].Merge(vecs[j])
 			chk("Merge", i, j)
 			mrg[i][j] = index[vvKey(dom.Nodes, m, vals)]
-			evals += 2
+			mrgWire[i][j] = wireSame(m)
+			evals += 3
 		}
 		// serialisation round trip
 		w := messages.NewWriter()
@@ -235,7 +298,7 @@ func checkC16(c *core.Ctx) {
 		chk("Write", i)
 		inc[i] = make([]map[string]any, len(dom.Nodes))
 		for p, nd := range dom.Nodes {
-			o := map[string]any{"err": false, "cmpNewOld": "", "cmpOldNew": "", "plusOne": false, "othersSame": false}
+			o := map[string]any{"err": false, "cmpNewOld": "", "cmpOldNew": "", "plusOne": false, "othersSame": false, "wire": false}
 			nv, err := vecs[i].Increment(nd)
 			chk("Increment", i)
 			if err != nil {
@@ -251,13 +314,14 @@ func checkC16(c *core.Ctx) {
 					}
 				}
 				o["othersSame"] = same
+				o["wire"] = wireSame(nv)
 			}
 			inc[i][p] = o
 			evals += 3
 		}
 	}
 	tables := map[string]any{"n": n, "nodes": dom.Nodes, "k": dom.K, "vecs": dom.Vecs,
-		"cmp": cmp, "merge": mrg, "rt": rt, "inc": inc, "mutated": mutated}
+		"cmp": cmp, "merge": mrg, "rt": rt, "inc": inc, "mutated": mutated, "mergeWire": mrgWire, "longIds": longIds}
 	tb, _ := json.Marshal(tables)
 	if err := os.WriteFile(filepath.Join(dir, "tables.json"), tb, 0o644); err != nil {
 		c.Broken("tables.json: %v", err)
